@@ -280,7 +280,13 @@ def helpers(ctx):
     ctx.ob(norm(kw['levels'][1]) == '1' and norm(kw['init'][1]) == 'list' and norm(kw['spec'][1]) == 'T', u,
            'defaults: spec=T, init=list, levels=1')
     z = [n for n in u.node.body if isinstance(n, ast.If) and matches(n.test, '%s == 0' % levv)]
-    ctx.ob(len(z) == 1 and isinstance(z[0].body[0], ast.Return) and is_name(z[0].body[0].value, u.params[0]), u, 'levels=0 returns the target itself')
+    # zero levels: the 0-fold chain over glom(target, spec) is glom(target, spec) -- the spec still applies
+    okz = len(z) == 1 and isinstance(z[0].body[0], ast.Return)
+    rz = z[0].body[0].value if okz else None
+    okz = okz and isinstance(rz, ast.Call) and callee_qual(ctx.program, u, rz) == 'core.glom' and len(rz.args) == 2 and not rz.keywords \
+        and is_name(rz.args[0], u.params[0]) and is_name(rz.args[1], subv)
+    ctx.ob(okz, u, 'levels=0 is the value of the spec on the target, unflattened: %s' % (norm(z[0].body[0]) if z else None),
+           '' if okz else 'the spec= option is ignored when levels == 0: flatten(t, spec=s, levels=0) must equal glom(t, s)')
     neg = [n for n in u.node.body if isinstance(n, ast.If) and matches(n.test, '%s < 0' % levv)]
     ctx.ob(len(neg) == 1 and isinstance(neg[0].body[0], ast.Raise), u, 'negative levels are refused')
     # spec = (subspec,) + (Flatten(init='lazy'),) * (levels - 1) + (Flatten(init=init),)
